@@ -94,6 +94,32 @@ def col1_reference(src, texts):
     return moved > 0
 
 
+def below_trailing(src, texts, cfg_text):
+    """the profile aligns trailing comments (align_right_cmt_span > 0), the input has a '//' comment on a line of its own directly
+    below a line that ends in a comment, and the only thing the second run changed is the column of such own-line comments
+    (indent_comment() puts the comment under the trailing comment by the columns of the INPUT, align_right_comments() then moves
+    the trailing comment: CmtIndent.tla and TrailCmt.tla describe the two steps)"""
+    if not re.search(r"(?m)^\s*align_right_cmt_span\s*=?\s*[1-9]", cfg_text):
+        return False
+    ls = src.split("\n")
+    if not any("//" in a and not a.strip().startswith("//") and b.strip().startswith("//") for a, b in zip(ls, ls[1:])) and \
+       not any(a.strip().startswith("//") and b.strip().startswith("//") for a, b in zip(ls, ls[1:])):
+        return False
+    if len(texts) < 2:
+        return False
+    l1, l2 = texts[0].split("\n"), texts[1].split("\n")
+    if len(l1) != len(l2):
+        return False
+    moved = 0
+    for k, (a, b) in enumerate(zip(l1, l2)):
+        if a == b:
+            continue
+        if not (a.strip().startswith("//") and a.strip() == b.strip() and k > 0 and "//" in l2[k - 1]):
+            return False
+        moved += 1
+    return moved > 0
+
+
 def _job(a):
     unc, tmp, i, jid, data, lang, cfgpath, profile = a
     ext = EXT.get(lang, ".c")
@@ -244,6 +270,8 @@ def run(ctx):
                     # one recorded mechanism for the whole family (CmtIndent.tla: Stable fails when the block's column is within the
                     # threshold of column 1): identified by what the input holds AND by what exactly the second run moved
                     sig = "%s|%s|comment-below-a-column-1-comment-goes-to-column-1-on-the-second-run" % (b, cfgname)
+                elif fname.startswith("pass/") and below_trailing(data.decode("latin-1"), e.get("texts") or [], cfgt):
+                    sig = "%s|%s|comment-below-a-comment-moves-again-under-align_right_cmt_span" % (b, cfgname)
                 if rep.get("bound"):
                     nb += 1
                 ctx.violation(sig, "%s violated for %s under %s: outputs %s, statuses %s, --check %d%s%s" % (
